@@ -4,15 +4,16 @@
    Vocabulary (Model/C08_json.v): [enc_min] = as_dict(full=False) + JSONEncoder conventions; [decode] = json.loads with
    object_hook=json_decoder (bottom-up; _load_*, _attach_parent_to_exprs); [reload] = an explicit function saying what a
    reload does to a tree (docstrings cleaned again, enum-valued expression fields become strings, every name's parent
-   link reset and then re-attached on the first layer of the attached slots).
+   link reset, dotted chains re-linked, and every name of every slot re-attached to the scope at any depth).
    [rep] = representation invariants of trees built by the agents (labels as a sorted set, member keys = names,
    line numbers non-zero, expressions built from the regenerated dataclass table).  Known gaps, decidable:
-   [gap_doc] (re-encoding differs), [gap_expr] (a name's parent link is not restored).  [wf] = rep and not gap_doc.
+   [gap_doc] (re-encoding differs), [gap_expr] (a name's parent link is not restored: after the repairs of the loader
+   this needs a parent that is neither the scope, nor the preceding name of a dotted chain, nor "str").  [wf] = rep and not gap_doc.
    Repaired in /repo (fix: commits), hence no longer hypotheses: line numbers may be absent, file paths may be lists or
    None, members may be named `kind`/`cls`, lambda parameter kinds come back as ParameterKind, full-mode documents with
    docstrings decode. *)
-From Coq Require Import List ZArith String Bool Arith.
-From Verif Require Import Lib.Sexp Gen.C08_tables Model.C08_json Proofs.C08_json.
+From Coq Require Import List ZArith String Ascii Bool Arith.
+From Verif Require Import Lib.Sexp Gen.C08_tables Gen.C08_text_tables Model.C08_json Model.C08_full Model.C08_text Model.C08_links Model.C08_hook Proofs.C08_json Proofs.C08_full Proofs.C08_text Proofs.C08_text_tables Proofs.C08_links Proofs.C08_hook.
 Import ListNotations.
 Open Scope string_scope. Open Scope list_scope. Open Scope nat_scope.
 
@@ -95,7 +96,7 @@ Theorem C08_fixed_witnesses :
   (let t := w_module [] FPNone in rep t = true /\ decode (enc_min t) = Ok (PTree t)) /\
   (let t := w_module [("kind", w_attr "kind" (Some 1%Z)); ("cls", w_attr "cls" (Some 2%Z)); ("name", w_attr "name" (Some 3%Z))] (FPStr "/x/w.py") in
    rep t = true /\ decode (enc_min t) = Ok (PTree t)) /\
-  (wf_slot w_lambda = true /\ decode (enc_ev w_lambda) = Ok (PExpr w_lambda) /\ slot_restored true w_lambda = true).
+  (wf_slot w_lambda = true /\ decode (enc_ev w_lambda) = Ok (PExpr w_lambda) /\ slot_restored w_lambda = true).
 Proof.
   split; [exact fixed_lineno|]. split; [exact (proj1 fixed_filepath)|]. split; [exact (proj2 fixed_filepath)|].
   split; [exact fixed_memberkey|exact fixed_enum].
@@ -108,28 +109,25 @@ Theorem C08_refuted_docstring :
 Proof. exact refuted_docstring. Qed.
 Print Assumptions C08_refuted_docstring.
 
-Theorem C08_refuted_links_depth :
-  let e := ex_sub (nm "Optional") (ex_sub (nm "List") (nm "Foo")) in
-  wf_slot e = true /\ has_enum e = false /\ slot_restored true e = false /\
-  attach_top (reload_ev e) = ex_sub (nm "Optional") (ex_sub (VName "List" LNone) (VName "Foo" LNone)).
-Proof. exact refuted_links_depth. Qed.
-Print Assumptions C08_refuted_links_depth.
+(* repaired in /repo (8c597ee, 5995d8a, bc5643e, 47f36fc), hence no longer gaps: names below the first layer of an
+   expression, names in class bases and attribute annotations, dotted names, attributes of string literals and of call
+   results all come back with the links they had *)
+Theorem C08_fixed_links :
+  (let e := ex_sub (nm "Optional") (ex_sub (nm "List") (nm "Foo")) in wf_slot e = true /\ slot_restored e = true) /\
+  (let e := ex_dotted "osp" "join" in wf_slot e = true /\ slot_restored e = true) /\
+  (let e := VNode "ExprAttribute" [("values", VList [VStr "'lit'"; VName "join" LStr])] in wf_slot e = true /\ slot_restored e = true) /\
+  (let e := VNode "ExprAttribute" [("values", VList [ex_call (nm "f") []; VName "res" LNone])] in wf_slot e = true /\ slot_restored e = true) /\
+  (let x := XClass [nm "Foo"; ex_dotted "sub" "Foo"] [] in extra_restored x = true) /\
+  (let x := XAttribute (nm "v") (ex_sub (nm "List") (nm "Foo")) in extra_restored x = true).
+Proof. exact fixed_links. Qed.
+Print Assumptions C08_fixed_links.
 
-Theorem C08_refuted_links_slot :
-  wf_slot (nm "Foo") = true /\ slot_restored false (nm "Foo") = false /\ slot_restored true (nm "Foo") = true.
-Proof. exact refuted_links_slot. Qed.
-Print Assumptions C08_refuted_links_slot.
-
-Theorem C08_refuted_links_chain :
-  let e := ex_dotted "osp" "join" in
-  wf_slot e = true /\ slot_restored true e = false /\
-  attach_top (reload_ev e) = VNode "ExprAttribute" [("values", VList [VName "osp" LScope; VName "join" LScope])].
-Proof. exact refuted_links_chain. Qed.
-Print Assumptions C08_refuted_links_chain.
-
+(* F11, the one remaining link gap: a name whose parent was not the scope, the preceding name or "str" (the value of an
+   attribute assigned in a method is attached to the method) comes back attached to the scope, at any depth *)
 Theorem C08_refuted_links_other :
-  wf_slot (VName "p" LOther) = true /\ slot_restored true (VName "p" LOther) = false /\
-  (let e := VNode "ExprAttribute" [("values", VList [VStr "'lit'"; VName "join" LStr])] in wf_slot e = true /\ slot_restored true e = false).
+  wf_slot (VName "p" LOther) = true /\ slot_restored (VName "p" LOther) = false /\
+  attach_top (reload_ev (VName "p" LOther)) = VName "p" LScope /\
+  (let e := ex_sub (nm "List") (VName "p" LOther) in wf_slot e = true /\ slot_restored e = false).
 Proof. exact refuted_links_other. Qed.
 Print Assumptions C08_refuted_links_other.
 
@@ -140,3 +138,159 @@ Theorem C08_refuted_full_builtin :
             /\ decode j = Ok (PTree (w_module [] (FPStr "/x/w.py"))).
 Proof. exact refuted_full_builtin. Qed.
 Print Assumptions C08_refuted_full_builtin.
+
+(* ---- full mode with the derived values computed (Model/C08_full.v): [enc_fullD c t] is as_dict(full=True) of an object
+   met in context c = (working directory, file path of the top-level package, file path of the enclosing module, dotted
+   path of the parent); `path`, `filepath`, `relative_filepath`, `relative_package_filepath` and the `parsed` sections
+   (no docstring parser) are functions of the serialised base fields and of the working directory alone. *)
+Theorem C08_full_decode_derived :
+  forall c t j, rep t = true -> enc_fullD c t = Ok j -> decode j = Ok (PTree (reload t)).
+Proof. exact full_decodeD. Qed.
+Print Assumptions C08_full_decode_derived.
+
+(* the reloaded tree re-derives every full-only value identically: the same full document, from the same place *)
+Theorem C08_full_derived_stable :
+  forall t c, rep t = true -> gap_doc t = false -> enc_fullD c (reload t) = enc_fullD c t.
+Proof. exact reencode_identical_fullD. Qed.
+Print Assumptions C08_full_derived_stable.
+
+Theorem C08_roundtrip_full_derived :
+  forall c t j, wf t = true -> enc_fullD c t = Ok j -> exists t', decode j = Ok (PTree t') /\ enc_fullD c t' = Ok j.
+Proof. exact roundtrip_fullD. Qed.
+Print Assumptions C08_roundtrip_full_derived.
+
+(* across the modes: the tree reloaded from the minimal document has the full document of the original *)
+Theorem C08_full_from_minimal :
+  forall c t t', wf t = true -> decode (enc_min t) = Ok (PTree t') -> enc_fullD c t' = enc_fullD c t.
+Proof. exact full_from_minimal. Qed.
+Print Assumptions C08_full_from_minimal.
+
+Theorem C08_example_full_derived :
+  (exists j, enc_fullD (root_ctx w_cwd) ex_tree = Ok j /\ decode j = Ok (PTree ex_tree)
+             /\ enc_fullD (root_ctx w_cwd) ex_tree = enc_fullD (root_ctx w_cwd) (reload ex_tree)) /\
+  (let m := TObj "pkg" None None (Some (mkDoc "Doc." (Some 1%Z) (Some 1%Z))) [] [] (XModule (FPStr "/p/src/pkg/__init__.py")) in
+   let gi := derive (root_ctx w_cwd) m in
+   g_filepath gi = Ok (JStr "/p/src/pkg/__init__.py") /\ g_relative gi = Ok (JStr "src/pkg/__init__.py")
+   /\ g_relative_package gi = Ok (JStr "pkg/__init__.py") /\ g_parsed gi = [mkSection "text" None (JStr "Doc.")]).
+Proof. split; [exact example_fullD|exact example_derive]. Qed.
+Print Assumptions C08_example_full_derived.
+
+(* serialisation itself fails in full mode, with the derived values computed: builtin module (F4), and a namespace
+   package none of whose directories lies below the working directory (F13) -- which serialises from elsewhere *)
+Theorem C08_refuted_full_namespace :
+  enc_fullD (root_ctx w_cwd) (w_module [] FPNone) = Err EBuiltin /\
+  (let t := w_module [] (FPList ["/q/ns"]) in
+   rep t = true /\ enc_fullD (root_ctx w_cwd) t = Err EValue /\
+   exists j, enc_fullD (root_ctx ["/"; "q"]) t = Ok j /\ decode j = Ok (PTree t)).
+Proof. split; [exact refuted_fullD_builtin|exact refuted_fullD_namespace]. Qed.
+Print Assumptions C08_refuted_full_namespace.
+
+(* ---- the text level (Model/C08_text.v): [dumps] = json.dumps with the default separators and ensure_ascii,
+   [loads] = json.loads (recursive descent over the text, strict strings), strings are sequences of code points < 256 *)
+Theorem C08_loads_dumps : forall j, loads (dumps j) = POk j EmptyString.
+Proof. exact loads_dumps. Qed.
+Print Assumptions C08_loads_dumps.
+
+(* Module.from_json (tree.as_json()) at the level of texts *)
+Theorem C08_text_decode_min : forall t, rep t = true -> loads_decode (dumps (enc_min t)) = TOk (PTree (reload t)).
+Proof. exact text_decode_min. Qed.
+Print Assumptions C08_text_decode_min.
+
+Theorem C08_text_roundtrip_min : forall t, wf t = true ->
+  exists t', loads_decode (dumps (enc_min t)) = TOk (PTree t') /\ dumps (enc_min t') = dumps (enc_min t).
+Proof. exact text_roundtrip_min. Qed.
+Print Assumptions C08_text_roundtrip_min.
+
+Theorem C08_text_decode_full : forall c t j, rep t = true -> enc_fullD c t = Ok j ->
+  loads_decode (dumps j) = TOk (PTree (reload t)).
+Proof. exact text_decode_full. Qed.
+Print Assumptions C08_text_decode_full.
+
+Theorem C08_text_roundtrip_full : forall c t j, wf t = true -> enc_fullD c t = Ok j ->
+  exists t' j', loads_decode (dumps j) = TOk (PTree t') /\ enc_fullD c t' = Ok j' /\ dumps j' = dumps j.
+Proof. exact text_roundtrip_full. Qed.
+Print Assumptions C08_text_roundtrip_full.
+
+Theorem C08_example_text :
+  (let j := JObj [("a", JArr [JNum 10; JNum (-3); JNull; JBool true]); ("q""\", JStr (String (ch 10) (String (ch 127) "x"))); ("e", JObj [])] in
+   dumps j = "{""a"": [10, -3, null, true], ""q\""\\"": ""\n\u007fx"", ""e"": {}}" /\ loads (dumps j) = POk j "" /\
+   loads "{""a"": 1,}" = PErr /\ loads "[1.5]" = PUnmod /\ loads " [ 1 , 2 ] " = POk (JArr [JNum 1; JNum 2]) "") /\
+  loads_decode (dumps (enc_min ex_tree)) = TOk (PTree ex_tree).
+Proof. split; [exact example_text|exact example_text_tree]. Qed.
+Print Assumptions C08_example_text.
+
+(* ---- the model's own tables are those of CPython / of models.py, regenerated on every run (Gen/C08_text_tables.v):
+   string escapes of json.dumps, the white space json.loads skips, the white space str.rstrip()/lstrip() strip
+   (cleandoc) on code points below 256, the full-only keys of as_dict and their order *)
+Theorem C08_text_tables_agree :
+  (forall c k, escape_char c k = append (string_of_codes (nth (code c) json_escape_table [])) k) /\
+  (forall c, is_jws c = mem_nat (code c) json_whitespace) /\
+  (forall c, is_ws c = mem_nat (nat_of_ascii c) latin1_space) /\
+  (forall path gi l, full_keys_g path gi = Ok l -> keys_of l = full_object_keys).
+Proof.
+  split; [exact escape_char_is_cpython|]. split; [exact json_whitespace_is_cpython|]. split; [exact strip_whitespace_is_cpython|].
+  exact (proj1 full_keys_are_the_code's).
+Qed.
+Print Assumptions C08_text_tables_agree.
+
+(* ---- the command line's format: cli.dump serialises with indent=2 and sort_keys=True and print() adds a newline;
+   [dumps_cli] is that text, and json.loads gives back the document with the keys of every object sorted *)
+Theorem C08_loads_dumps_cli : forall j, loads (dumps_cli j) = POk (sort_keys j) EmptyString.
+Proof. exact loads_dumps_cli. Qed.
+Print Assumptions C08_loads_dumps_cli.
+
+Theorem C08_example_cli :
+  dumps_cli (JObj [("b", JArr [JNum 10; JArr []; JObj []]); ("a", JObj [("z", JNull); ("y", JStr "s")])])
+  = append "{" (String (ch 10) (append "  ""a"": {" (String (ch 10) (append "    ""y"": ""s""," (String (ch 10) (append "    ""z"": null" (String (ch 10)
+    (append "  }," (String (ch 10) (append "  ""b"": [" (String (ch 10) (append "    10," (String (ch 10) (append "    []," (String (ch 10) (append "    {}" (String (ch 10)
+    (append "  ]" (String (ch 10) (append "}" (String (ch 10) ""))))))))))))))))))))).
+Proof. exact example_cli. Qed.
+Print Assumptions C08_example_cli.
+
+(* ---- the link gap, exactly and without reference to the loader (Model/C08_links.v): [canon e] says that every name of
+   e outside a dotted chain is attached to the scope, that in a chain a name after a name is linked to it, a name after
+   a string literal to "str" and a name after any other expression to nothing, and that ExprParameter.kind (and nothing
+   else) holds an enum member.  An expression comes back from a reload unchanged iff it is canonical ... *)
+Theorem C08_links_exact : forall e, wf_ev e = true -> slot_restored e = canon e.
+Proof. exact slot_restored_canon. Qed.
+Print Assumptions C08_links_exact.
+
+(* ... so the expression gap of a tree is the negation of a structural predicate ... *)
+Theorem C08_gap_expr_exact : forall t, rep t = true -> gap_expr t = negb (canon_tree t).
+Proof. exact gap_expr_exact. Qed.
+Print Assumptions C08_gap_expr_exact.
+
+(* ... and a module whose names all carry canonical links (and whose docstrings are cleandoc fixpoints) reloads to itself *)
+Theorem C08_names_resolve_canonical :
+  forall n ln eln doc ls ms fp,
+  let t := TObj n ln eln doc ls ms (XModule fp) in
+  rep t = true -> gap_doc t = false -> canon_tree t = true -> from_json (enc_min t) = Ok t.
+Proof. exact names_resolve_canonical. Qed.
+Print Assumptions C08_names_resolve_canonical.
+
+Theorem C08_example_canon : canon_tree ex_tree = true /\ canon (VName "p" LOther) = false
+  /\ canon (ex_sub (nm "Optional") (ex_sub (nm "List") (nm "Foo"))) = true /\ canon (ex_dotted "osp" "join") = true.
+Proof. exact example_canon. Qed.
+Print Assumptions C08_example_canon.
+
+(* ---- json.loads(text, object_hook=json_decoder) with the hook called while the text is read (Model/C08_hook.v):
+   on a printed document this is the decoding of the document, error included ... *)
+Theorem C08_loads_hook_dumps : forall j, loads_hook (dumps j) = tres_of (decode j).
+Proof. exact loads_hook_dumps. Qed.
+Print Assumptions C08_loads_hook_dumps.
+
+(* ... hence Module.from_json (tree.as_json(full=...)) as CPython runs it, in both modes ... *)
+Theorem C08_hook_decode :
+  (forall t, rep t = true -> loads_hook (dumps (enc_min t)) = TOk (PTree (reload t))) /\
+  (forall c t j, rep t = true -> enc_fullD c t = Ok j -> loads_hook (dumps j) = TOk (PTree (reload t))).
+Proof. split; [exact hook_decode_min|exact hook_decode_full]. Qed.
+Print Assumptions C08_hook_decode.
+
+(* ... and the same as reading first and decoding afterwards; the two differ in the order in which errors are found only *)
+Theorem C08_hook_agrees_on_json :
+  (forall j, loads_hook (dumps j) = loads_decode (dumps j)) /\
+  loads_hook "{""kind"": ""alias"", ""name"": ""a""} x" = TErr (EKey "target_path") /\
+  loads_decode "{""kind"": ""alias"", ""name"": ""a""} x" = TJson /\
+  loads_hook "[{""cls"": ""ExprBogus""}, }" = TErr EAttr /\ loads_hook "[1, }" = TJson.
+Proof. split; [exact hook_agrees_on_json|exact example_hook]. Qed.
+Print Assumptions C08_hook_agrees_on_json.
